@@ -328,7 +328,7 @@ func (p *Prog) Implementations(call *ssa.CallCommon) []*ssa.Function {
 						}
 					}
 				}
-				if p.isMod[fn] && !seen[fn] {
+				if p.isMod[fn] && !seen[fn] && !load.IsTestSupport(p.L.Fset.Position(fn.Pos()).Filename) {
 					seen[fn] = true
 					out = append(out, fn)
 				}
